@@ -133,5 +133,8 @@ def main():
     good = ok["ok"] and not r1["ok"] and not r1b["ok"] and not r2["ok"] and not r3["ok"] \
         and s_ok["ok"] and not s1["ok"] and not s2["ok"] and not s3["ok"] \
         and l_ok["ok"] and not l1["ok"] and not l2["ok"] and not l3["ok"]
+    # ---- vacuity guard: every action of the state-machine configurations is taken, no branch of theirs is never evaluated
+    import vacuity
+    good = vacuity.main() and good
     print("SELFTEST", "PASS" if good else "FAIL")
     return 0 if good else 2
